@@ -92,7 +92,15 @@ def engine_level(ctx):
     for eng in ["small:23:5"] + ALL_ENGINES:
         for r in range(reps):
             old = eng.startswith("gex") and r % 2 == 1
-            c, s = L.honest(rng, eng, old=old)
+            try:
+                c, s = L.honest(rng, eng, old=old)
+            except L.HonestFailed as hf:
+                # the real engines (or the real Transport methods they call) broke an undisturbed exchange
+                ctx.case(("honest-failed", eng, old, hf.stage), True)
+                ctx.fail("honest-exchange-did-not-complete:" + L.family(hf.c),
+                         {"engine": eng, "old": old, "stage": hf.stage, "client": L.sc_json(hf.c), "server": L.sc_json(hf.s)},
+                         "no %s; client: %s / server: %s" % (hf.stage, hf.ctext[-200:], hf.stext[-200:]))
+                continue
             ctext, stext = L.run_scenario(c), L.run_scenario(s)
             scs += [c, s]
             meta += [("honest", eng, "c", None), ("honest", eng, "s", None)]
@@ -107,6 +115,13 @@ def engine_level(ctx):
                 ctx.fail("honest-exchange-did-not-complete:" + L.family(c), case,
                          "client: %s / server: %s" % (ctext[-160:], stext[-160:]))
                 continue
+            for who, sc_, text_, kh_ in (("client", c, ctext, kc), ("server", s, stext, ks_)):
+                want_sid = sc_["sid"].hex() if sc_.get("sid") else kh_[0][1]
+                if L.final_sid(text_) != (want_sid or "-"):
+                    ctx.fail("session-id-not-first-H", dict(case, side=who, authenticated=bool(sc_.get("authed")),
+                                                            preset=bool(sc_.get("sid"))),
+                             "%s session_id after the exchange %s, expected %s (first exchange hash)"
+                             % (who, L.final_sid(text_), want_sid))
             if hc[0] != hs[0]:
                 ctx.fail("hash-input-differs-between-roles:" + L.family(c), case,
                          "client hashed %s, server hashed %s" % (hc[0].hex(), hs[0].hex()))
@@ -172,7 +187,7 @@ def engine_level(ctx):
         if model is not None and model[i] != text:
             pv, pm = sc.get("peer_value"), sc.get("modulus_p")
             i_eff, i_status, _ = L.parse_trace(text)
-            m_eff = L.parse_trace(model[i])[0] if model[i].count(" | ") == 2 else []
+            m_eff = L.parse_trace(model[i])[0] if model[i].count(" | ") >= 2 else []
             if pv is not None and pv == pm - 1 and i_status == "ssh" and i_eff == m_eff[:len(i_eff)] and len(i_eff) < len(m_eff):
                 ctx.dist("tolerated:p-1-refused")  # stricter range check: C08's business, not a mismatch of C06
                 continue
@@ -195,8 +210,23 @@ def set_k_h_level(ctx):
         b = Bare()
         b.K = b.H = None
         b.session_id = sid0
-        for k, h in seq:
-            Transport._set_K_H(b, k, h)
+        # user authentication may happen at any point between the exchanges (or never): the latch must not care
+        auth_at = rng.choice([None, 0, 0, rng.randrange(0, 7)])
+        b.authenticated = auth_at == 0
+        b.active = True
+        crashed = None
+        for j, (k, h) in enumerate(seq):
+            if auth_at is not None and j >= auth_at:
+                b.authenticated = True
+            try:
+                Transport._set_K_H(b, k, h)
+            except Exception as e:  # the real method must work on the attributes a Transport has
+                crashed = exc_site(e)
+                break
+        if crashed:
+            ctx.disagree("set_K_H-raised", {"seq_len": len(seq)}, "returns", crashed)
+            continue
+        ctx.dist("set_K_H:auth-" + ("never" if auth_at is None else "from-start" if auth_at == 0 else "midway"))
         impl.append("%s %s %s" % ("none" if b.K is None else b.K, "none" if b.H is None else hx(b.H),
                                   "none" if b.session_id is None else hx(b.session_id)))
         lines.append(("kh %s " % ("none" if sid0 is None else hx(sid0)) + " ".join("%d:%s" % (k, hx(h)) for k, h in seq)).rstrip())
@@ -245,11 +275,23 @@ def e2e_values(e, kex):
 def e2e_honest(ctx, kex, kind, algo, rekeys):
     from paramiko.message import Message
 
+    import paramiko
+    from paramiko.common import AUTH_SUCCESSFUL
+
+    class Srv(paramiko.ServerInterface):
+        def check_auth_none(self, username):
+            return AUTH_SUCCESSFUL
+
+        def get_allowed_auths(self, username):
+            return "none"
+
     key = L.host_key(kind)
     e = L.E2E(kex, key, key_algo=algo)
-    case = {"kex": kex, "hostkey": kind, "algo": algo, "rekeys": rekeys}
+    # user authentication happens after `auth_after` re-exchanges: 0 = before any rekey, rekeys = after all of them
+    auth_after = ctx.rng.choice([0, 1, rekeys]) if rekeys else 0
+    case = {"kex": kex, "hostkey": kind, "algo": algo, "rekeys": rekeys, "authenticate_after_rekeys": auth_after}
     try:
-        err = e.handshake(timeout=60)
+        err = e.handshake(timeout=60, server=Srv())
         ctx.case(("e2e-honest", kex, algo, rekeys), True)
         ctx.dist("e2e-honest:%s:%s" % (kex, algo))
         if err is not None:
@@ -290,7 +332,19 @@ def e2e_honest(ctx, kex, kind, algo, rekeys):
         if rekeys and not L_wait_logs(e, 1):
             ctx.fail("first-exchange-incomplete:" + kex, case, "NEWKEYS not processed on both sides: %r" % e.done)
             return
-        for r in range(rekeys):
+        for r in range(rekeys + 1):
+            if r == auth_after:
+                try:
+                    e.tc.auth_none("alice")
+                except Exception as ex:
+                    ctx.disagree("e2e-auth-none-failed", dict(case, round=r), "authenticated", repr(ex))
+                    return
+                ctx.dist("e2e-auth:after-%d-of-%d-rekeys" % (r, rekeys))
+                if e.tc.session_id != first or e.ts.session_id != first:
+                    ctx.fail("session-id-changed-on-rekey", dict(case, round=r, at="authentication"),
+                             "first H %s, now client %r server %r" % (first.hex(), e.tc.session_id, e.ts.session_id))
+            if r == rekeys:
+                break
             who = e.tc if r % 2 == 0 else e.ts
             try:
                 who.renegotiate_keys()
@@ -302,7 +356,7 @@ def e2e_honest(ctx, kex, kind, algo, rekeys):
                          % (len(e.log["c"]), len(e.log["s"])))
                 return
             c_k, s_k = e.log["c"][r + 1], e.log["s"][r + 1]
-            ctx.dist("e2e-rekey:%s" % kex)
+            ctx.dist("e2e-rekey:%s:%s-auth" % (kex, "after" if r >= auth_after else "before"))
             if c_k[:2] != s_k[:2]:
                 ctx.fail("K-or-H-differs-between-peers-after-rekey:" + kex, dict(case, round=r), "differs")
             if c_k[2] != first or s_k[2] != first or e.tc.session_id != first or e.ts.session_id != first:
